@@ -363,7 +363,8 @@ def auto_discharge(facts, f, defs, s, ctx):
     t = s["term"]
     if s["kind"] in ("index", "vec-index") or (s["kind"] == "assert" and s["what"] == "BoundsCheck"):
         import idxproof
-        why = idxproof.proof(facts, f, s.get("line")) or idxproof.clamp_proof(facts, f, s.get("line"))
+        why = idxproof.proof(facts, f, s.get("line")) or idxproof.clamp_proof(facts, f, s.get("line")) or \
+            (idxproof.order_slot_proof(facts, f, s.get("line")) if s.get("what") == "insert" else None)
         if why:
             return why
     if s["kind"] == "str-index":
